@@ -264,7 +264,10 @@ fn run_swh<'gc, H: Part + Collect<'gc>, E: Part + Collect<'gc>>(mc: &'gc Mutatio
             }
         }};
     }
-    let g = if meta {
+    let g = if meta && base % 2000 == 0 {
+        ex.class.push_str(":unwrap_static_header");
+        script!(GcSliceWithHeaderBuilder::<Static<H>, E>::new(len).unwrap_static_header())
+    } else if meta {
         let r = script!(GcSliceWithHeaderBuilder::<H, E, u64>::new_with_type_meta::<MetaA>(len));
         r
     } else {
